@@ -123,7 +123,9 @@ func (p *c03) gen(seed uint64, idx int) c03Case {
 		"{{ psn }}", "{{ stl }}", "{{ mpn }}", "{{ [psn, stl] }}|{{ arrp }}", "{{ psn ~ mpn }}", "{{ {'a': stl, 'b': mpn} }}", "{{ lpn }}{{ psn|last }}", "{{ stl|last }}|{{ stl|first }}", "{{ mpn|last }}{{ mpn|first }}",
 		// keys of different Go types that are numerically equal or print alike
 		"{{ tie2[1] }}|{{ tie2['1'] }}|{{ tie2[2] }}|{{ tie2['2'] }}|{{ tie2[1.0] }}", "{{ tie[1] }}|{{ tie['1'] }}|{{ tie[2] }}", "{{ tie2[n1] }}{{ tie2[n2] }}|{{ ti[n1] }}{{ im3['1'] }}{{ im3[1] }}",
-		"{% for k, v in tie %}{{ k }}={{ v }},{% endfor %}", "{{ tie|first }}|{{ tie|last }}|{{ tie|keys|join(',') }}", "{{ tiep }}", "{{ tie|json_encode|length }}{% for v in tie %}{{ v }}{% endfor %}", "{{ tie|merge({'x': 1})|first }}", "{{ merge(tie, {'z': 1})|json_encode }}", "{{ merge(tie2, tie)|keys|join(',') }}{{ merge(tie2, {'q': 2})|first }}",
+		// a hash whose values do not order totally when numbers and text are compared by different rules
+		"{{ mix|sort|join(',') }}", "{{ mix|sort|first }}|{{ mix|sort|last }}", "{{ max(mix) }}|{{ min(mix) }}", "{{ mix|reverse|join(',') }}|{{ mix|join(',') }}", "{{ mix|keys|sort|join }}{{ mix|length }}", "{% for v in mix|sort %}{{ v }};{% endfor %}",
+		"{% for k, v in tie %}{{ k }}={{ v }},{% endfor %}", "{{ tie|first }}|{{ tie|last }}|{{ tie|keys|join(',') }}", "{{ tiep }}", "{{ tie|json_encode|length }}{% for v in tie %}{{ v }}{% endfor %}", "{{ tie|merge({'x': 1})|first }}", "{{ merge(tie, {'z': 1})|json_encode }}", "{{ tm|merge(tie)|json_encode }}", "{{ ti|merge(tie2)|keys|join(',') }}{{ tm|merge(tie2)|first }}", "{{ merge(tie2, tie)|keys|join(',') }}{{ merge(tie2, {'q': 2})|first }}",
 		"{% include 'inc3' with {'a1': a2, 'a2': a3, 'a3': a1, 'n1': n2 + 1, 'n2': 10} %}", "{% include 'inc3' with {'a3': a2 ~ a1, 'a2': a1, 'a1': 'x', 'n2': n1, 'n1': n2} only %}",
 		"{% include 'inc' with m %}", "{% include 'inc' with " + hash(r.Range(3, 6)) + " only %}",
 	}
@@ -257,7 +259,13 @@ func (c c03Case) buildCtx(variant uint64) map[string]interface{} {
 	for _, i := range r.Perm(3) {
 		im3[int64(i)] = fmt.Sprintf("i%d", i)
 	}
+	mix := map[string]interface{}{}
+	mixVals := []interface{}{9, 10, "10-beta", 1.5, "1.50", "x", "9", 10.0, "", true}
+	for _, i := range r.Perm(len(mixVals)) {
+		mix[fmt.Sprintf("k%d", i)] = mixVals[i]
+	}
 	return map[string]interface{}{
+		"mix":  mix,
 		"tie2": tie2, "im3": im3,
 		"psn": psn, "stl": stl, "mpn": mpn, "lpn": []interface{}{nil, pi}, "arrp": arrp, "tie": tie, "tiep": tiep,
 		"m": m, "m2": m2, "tm": tm, "tm2": tm2, "ti": ti, "ik": ik, "ik2": ik2, "ik3": ik3, "ik4": ik4, "nested": nested,
